@@ -1,4 +1,5 @@
 import WindVerif.Model.Sorted
+import WindVerif.Model.SortedMixins
 import WindVerif.Drv.Common
 namespace WindVerif.Drv
 open WindVerif.Sorted
@@ -51,6 +52,40 @@ def ssetStep (s : List Int) (ws : List String) : List Int × String :=
     | none => (s, "bad-op")
   | ["len"] => fin s s!"ret {s.length}"
   | ["clear"] => fin (setClear (s.length + 1) s) "ok"
+  -- the `Set` / `MutableSet` mixins; the operand is a builtin set given by its elements (duplicate free)
+  | "le" :: r => match parseInts r with
+    | some t => fin s s!"ret {if setLe s t then 1 else 0}"
+    | none => (s, "bad-op")
+  | "eq" :: r => match parseInts r with
+    | some t => fin s s!"ret {if setEq s t then 1 else 0}"
+    | none => (s, "bad-op")
+  | "disjoint" :: r => match parseInts r with
+    | some t => fin s s!"ret {if setIsDisjoint s t then 1 else 0}"
+    | none => (s, "bad-op")
+  | "and" :: r => match parseInts r with
+    | some t => fin s ("list " ++ showInts (setAnd s t))
+    | none => (s, "bad-op")
+  | "or" :: r => match parseInts r with
+    | some t => fin s ("list " ++ showInts (setOr s t))
+    | none => (s, "bad-op")
+  | "sub" :: r => match parseInts r with
+    | some t => fin s ("list " ++ showInts (setSub s t))
+    | none => (s, "bad-op")
+  | "xor" :: r => match parseInts r with
+    | some t => fin s ("list " ++ showInts (setXor s t))
+    | none => (s, "bad-op")
+  | "ior" :: r => match parseInts r with
+    | some t => fin (setIor s t) "ok"
+    | none => (s, "bad-op")
+  | "iand" :: r => match parseInts r with
+    | some t => fin (setIand s t) "ok"
+    | none => (s, "bad-op")
+  | "isub" :: r => match parseInts r with
+    | some t => fin (setIsub s t) "ok"
+    | none => (s, "bad-op")
+  | "ixor" :: r => match parseInts r with
+    | some t => fin (setIxor s t) "ok"
+    | none => (s, "bad-op")
   | _ => (s, "bad-op")
 
 def smapDump (m : SMap) : String := s!"K:{showInts m.keys} V:{showNats m.vals}"
@@ -87,6 +122,26 @@ def smapStep (m : SMap) (ws : List String) : SMap × String :=
     | none => (m, "bad-op")
   | ["len"] => fin m s!"ret {m.keys.length}"
   | ["items"] => fin m ("ret " ++ joinWith "," ((mapItems m).map (fun p => s!"{p.1}:{p.2}")))
+  -- the `Mapping` / `MutableMapping` mixins and the views
+  | ["getd", w, d] => match parseProbe w, d.toNat? with
+    | some p, some d => fin m s!"ret {mapGetD m p d}"
+    | _, _ => (m, "bad-op")
+  | ["popd", w, d] => match parseProbe w, d.toNat? with
+    | some p, some d => let (m', v) := mapPopD m p d; fin m' s!"ret {v}"
+    | _, _ => (m, "bad-op")
+  | ["haskey", w] => match parseProbe w with
+    | some p => fin m s!"ret {if mapKeysContains m p then 1 else 0}"
+    | none => (m, "bad-op")
+  | ["hasitem", w, v] => match parseProbe w, v.toNat? with
+    | some p, some v => fin m s!"ret {if mapItemsContains m p v then 1 else 0}"
+    | _, _ => (m, "bad-op")
+  | ["hasvalue", v] => match v.toNat? with
+    | some v => fin m s!"ret {if mapValuesContains m v then 1 else 0}"
+    | none => (m, "bad-op")
+  | "eq" :: r => match parseIntNatPairs r with
+    | some l => fin m s!"ret {if mapEq m l then 1 else 0}"
+    | none => (m, "bad-op")
+  | ["clear"] => fin (mapClear (m.keys.length + 1) m) "ok"
   | _ => (m, "bad-op")
 
 def ssetMachine : Machine := { σ := List Int, init := [], step := ssetStep }
